@@ -179,6 +179,22 @@ def build(ctx):
                                         cap=ctx.q(600, 1200), meta={"big_loops": ["ref_walk_%s.%d" % (msg.name, k) for k in range(16)]},
                                         desc="message %s.%s level %s: getters %s == byte-level reference decode; buffer unchanged" % (sch.ns, msg.name, lv.name, [a[0] for a in chunk]),
                                         bounds={"N": N, "G": G, "D": D, "std": "c++" + std, "build": mode, "byte_order": "BE" if sch.be else "LE"}))
+    # "at run time and in constant evaluation": the same getter obligations on the constant-evaluation model (hgen.CE_FLAGS) of the C++20 path (bit_cast + reverse_copy as element-wise loops)
+    for (xml, std) in ((("vs_msg_be.xml", "20"),) if ctx.quick else (("vs_msg_be.xml", "20"), ("vs_msg_le.xml", "20"), ("vs_msg2_be.xml", "20"), ("vs_msg_be.xml", "17"))):
+        sch, inc = hgen.gen_headers(ctx, xml)
+        for msg in sch.messages:
+            if msg.groups or msg.data: continue     # fixed-layout messages: every primitive / enum / set / array / composite getter
+            g = msggen.MG(sch, msg, G)
+            u = ctx.lower("c02ce_%s_%s" % (sch.ns, msg.name), g.cpp_prelude() + g.cpp_getset(setters=False) + g.cpp_geom(mutators=False), std=std, mode="checked", incs=[inc], extra=hgen.CE_FLAGS)
+            N = g.max_size(0, D) + 1
+            for lv in g.levels:
+                arms = leaf_arms(g, lv, sch)
+                for j in range(0, len(arms), 6):
+                    chunk = arms[j:j + 6]
+                    hs.append(P.Harness("%s_%s_%s_%d_consteval_cxx%s" % (sch.ns, msg.name, lv.name, j // 6, std), harness(u, g, chunk, N, 0, D), [u], unwind=G + 2, cap=ctx.q(600, 1200),
+                                        meta={"big_loops": ["ref_walk_%s.%d" % (msg.name, k) for k in range(16)]},
+                                        desc="message %s.%s (constant-evaluation model): getters %s == byte-level reference decode" % (sch.ns, msg.name, [a[0] for a in chunk]),
+                                        bounds={"N": N, "std": "c++" + std, "model": "constant-evaluation branches of sbepp (H3) and libstdc++ lowered as ordinary code", "byte_order": "BE" if sch.be else "LE"}))
     # cursor-based getters (the usual way of decoding in order) meet the same obligation from the position the member requires: same value / view as the reference decode, documented end position
     import c04
     for (xml, std, mode) in ([p_ for p_ in plan(ctx) if p_[0] in ("vs_msg_le.xml", "vs_msg2_be.xml")][:2] if ctx.quick else [p_ for p_ in plan(ctx) if p_[0].startswith("vs_msg")]):
